@@ -412,12 +412,13 @@ CONFIG['C02'] = _resize_cfg(
     "to the source on every run; the SIMD 16-bit alpha-division lane (mul_ps by 65535, div_ps, min_ps, cvtps_epi32) is faithful and "
     "saturating for all 2^32 pairs under the standard rounding model, hence within one unit of the portable division "
     "(simd_div16_within_one; intrinsic multiset pinned to the source); two summation orders of the rounded f64 products differ by at "
-    "most the sum of their error bounds (reassoc_err); one SIMD kernel is modelled down to the bytes of its registers - "
-    "horiz_convolution_one_row of src/convolution/u8x4/sse4.rs: 16-byte loads, pshufb with the seven masks taken from the source, "
+    "most the sum of their error bounds (reassoc_err); one SIMD pass is modelled down to the bytes of its registers - "
+    "horiz_convolution_one_row and horiz_convolution_four_rows of src/convolution/u8x4/sse4.rs: 16-byte loads, pshufb with the seven masks taken from the source, "
     "madd_epi16, add_epi32, the 8 / 4 / 2 / 1 coefficient steps, srai / packs / packus - and proved equal to the portable kernel for every "
-    "precision, coefficient list and source row (u8x4_sse4_one_row_eq_portable / _eq_passInt). The lane plumbing of the other kernels is tied by correspondence over every remainder branch of every kernel.",
-    ["shuffle masks, lane placement and load widths are modelled and proved for ONE kernel (U8x4, SSE4.1, one-row horizontal pass: "
-     "u8x4_sse4_one_row_eq_portable, masks re-extracted from the source, call sequence pinned); for all other kernels they are tied by "
+    "precision, coefficient list and source row (u8x4_sse4_one_row_eq_portable / _eq_passInt, u8x4_sse4_four_rows_eq_portable). The lane plumbing of the other kernels is tied by correspondence over every remainder branch of every kernel.",
+    ["shuffle masks, lane placement and load widths are modelled and proved for ONE pass (U8x4, SSE4.1, horizontal: both its kernels, "
+     "u8x4_sse4_one_row_eq_portable and u8x4_sse4_four_rows_eq_portable, masks re-extracted from the source, call sequences pinned, the lane "
+     "models also executed against the real kernels); for all other kernels they are tied by "
      "correspondence only; NEON and WASM kernels cannot be executed here",
      "float formats: reassoc_err bounds the difference of two summation orders by (gamma(d)+gamma(d'))*sum|x k| under the standard rounding "
      "model (premise); the oracle applies a tolerance of a few f32 ulps",
